@@ -183,19 +183,24 @@ def hap_walk(ref, variants, alleles, start, end):
     return "".join(seq), cig
 
 
-def legal_boundary(variants, p):
-    """a read may start/end at reference offset p iff p is not strictly inside a variant's footprint
-    (footprint = [pos, pos+len(ref)] closed, so that an insertion's anchor and the base after it stay together)."""
-    for v in variants:
-        if v.pos < p <= v.pos + len(v.ref):
+def legal_boundary(variants, p, alleles=None, is_end=False):
+    """a read may start/end at reference offset p iff p is not strictly inside a variant's footprint.
+    A read may END exactly behind the last reference base of a variant (p == pos+len(ref)) when its CIGAR then ends in M:
+    the read carries REF there, or the variant is an SNV/MNP (needs `alleles`); otherwise that offset is excluded so that
+    no CIGAR ends in I or D. A read may start exactly on a variant's first base."""
+    for k, v in enumerate(variants):
+        vend = v.pos + len(v.ref)
+        if v.pos < p < vend:
             return False
-        if p == v.pos and False:
+        if p == vend:
+            if is_end and alleles is not None and (alleles[k] == 0 or len(v.ref) == len(v.alt)):
+                continue
             return False
     return True
 
 
 def simulate_reads(rng, sc, sample, chrom, n_reads, len_range=(60, 200), name_prefix=None, qual=30,
-                   paired_fraction=0.0, insert_range=(30, 120)):
+                   paired_fraction=0.0, insert_range=(30, 120), edge_fraction=0.0):
     """Error-free reads of `sample` on `chrom`. Each read copies one true haplotype. Returns list of dicts:
     name, sample, chrom, start (0-based), cigar [(op,len)], seq, qual (int), hap, flag, mate info for pairs."""
     ref = sc.ref[chrom]
@@ -205,13 +210,23 @@ def simulate_reads(rng, sc, sample, chrom, n_reads, len_range=(60, 200), name_pr
     reads = []
     prefix = name_prefix or f"{sample}_{chrom}_r"
 
-    def pick_interval(lo_start, hi_start, length):
+    def pick_interval(lo_start, hi_start, length, alleles=None):
         for _ in range(50):
             s = rng.randint(lo_start, max(lo_start, hi_start))
             e = min(L - 1, s + length)
+            if alleles is not None and vs and rng.random() < edge_fraction:
+                # snap one end onto a variant edge: first aligned base = first base of a variant, or
+                # last aligned base = last reference base of a variant
+                v = rng.choice(vs)
+                if rng.random() < 0.5:
+                    s = v.pos
+                    e = min(L - 1, s + length)
+                else:
+                    e = v.pos + len(v.ref)
+                    s = max(0, e - length)
             while s < e and not legal_boundary(vs, s):
                 s += 1
-            while e > s and not legal_boundary(vs, e):
+            while e > s and not legal_boundary(vs, e, alleles, True):
                 e -= 1
             if e - s >= 10:
                 return s, e
@@ -221,7 +236,7 @@ def simulate_reads(rng, sc, sample, chrom, n_reads, len_range=(60, 200), name_pr
         h = rng.randint(0, 1)
         alleles = [x[h] for x in haps]
         length = rng.randint(*len_range)
-        iv = pick_interval(0, L - length - 1, length)
+        iv = pick_interval(0, L - length - 1, length, alleles)
         if iv is None:
             continue
         s, e = iv
@@ -229,7 +244,7 @@ def simulate_reads(rng, sc, sample, chrom, n_reads, len_range=(60, 200), name_pr
         name = f"{prefix}{k}"
         if rng.random() < paired_fraction:
             gap = rng.randint(*insert_range)
-            iv2 = pick_interval(e + gap, e + gap, rng.randint(*len_range))
+            iv2 = pick_interval(e + gap, e + gap, rng.randint(*len_range), alleles)
             if iv2 and iv2[0] >= e:
                 s2, e2 = iv2
                 seq2, cig2 = hap_walk(ref, vs, alleles, s2, e2)
